@@ -20,6 +20,9 @@ pub struct HostileCase {
     pub fault: Option<(u64, Fault)>,
     /// long-run form: after the add_track calls of `sc`, this many write_sample calls of one
     /// one-byte sample on track 1 (not materialised as ops), then write_end
+    /// length of the outage in consecutive stream calls (0 and 1 both mean a single call)
+    #[serde(default)]
+    pub fault_len: u8,
     #[serde(default)]
     pub repeat: u64,
     /// before API call `.0` (1 = first call after write_start) the sink's position is `.1`:
@@ -219,7 +222,7 @@ impl Prop for C17 {
             // keeps every table of the muxer small while the sample counters run past 2^32
             let tc = TrackCfg { kind: Kind::Ttxt, track_type: Kind::Ttxt.natural_track_type(), timescale: 65536, language: "und".into(), width: 0, height: 0, sps: vec![], pps: vec![], aac_profile: 2, freq_index: 3, chan_conf: 2, bitrate: 0 };
             let sc = MuxScenario { cfg: MovieCfg { major: *b"isom", minor: 512, compat: vec![], timescale: 1000 }, ops: vec![Op::AddTrack(tc)], start_pos: 0, io: IoKnobs::plain(), preexisting: 0, fault: None, fault_len: 0, fault_api: None };
-            return HostileCase { sc, fault: None, repeat: (1u64 << 32) + 70_000, reposition: None, regions: None };
+            return HostileCase { sc, fault: None, fault_len: 0, repeat: (1u64 << 32) + 70_000, reposition: None, regions: None };
         }
         let mut o = GenOpts::hostile();
         if tier == Tier::Thorough {
@@ -279,6 +282,16 @@ impl Prop for C17 {
             // what a caller does when write_end fails: perhaps more samples, then write_end again
             append_retry_tail(&mut sc, &mut r);
         }
+        // a third of the faults are outages of two or three consecutive stream calls
+        let fault_len: u8 = if fault.is_some() {
+            match r.below(6) {
+                0 => 2,
+                1 => 3,
+                _ => 1,
+            }
+        } else {
+            0
+        };
         let reposition = if fault.is_none() && r.chance(1, 16) {
             let api = 1 + r.below(sc.ops.len().max(1) as u64) as u32;
             let pos = match r.below(6) {
@@ -293,7 +306,8 @@ impl Prop for C17 {
         } else {
             None
         };
-        let regions = if fault.is_none() && reposition.is_none() && r.chance(1, 12) {
+        // (also together with a fault: chunk offsets beyond 4 GiB when a write_end fails and is retried)
+        let regions = if reposition.is_none() && r.chance(1, 12) {
             let nops = sc.ops.len().max(1) as u64;
             let mut toggles: Vec<u32> = (0..1 + r.below(4)).map(|_| 1 + r.below(nops) as u32).collect();
             toggles.sort_unstable();
@@ -304,7 +318,7 @@ impl Prop for C17 {
         } else {
             None
         };
-        HostileCase { sc, fault, repeat: 0, reposition, regions }
+        HostileCase { sc, fault, fault_len, repeat: 0, reposition, regions }
     }
     fn eval(case: &HostileCase, st: &mut Stats) -> Vec<Violation> {
         let prop = "C17";
@@ -317,8 +331,10 @@ impl Prop for C17 {
         {
             let mut s = sim.borrow_mut();
             s.set_transparent(sc.io.chunking, sc.io.intr_ppm, sc.io.io_seed);
-            if let Some(f) = case.fault {
-                s.plan.push(f);
+            if let Some((seq, f)) = case.fault {
+                for i in 0..case.fault_len.max(1) as u64 {
+                    s.plan.push((seq + i, f));
+                }
             }
             s.reposition = case.reposition;
             s.regions = case.regions.clone();
@@ -419,17 +435,20 @@ impl Prop for C17 {
             return v;
         }
         if case.fault.is_some() {
-            v.push(HostileCase { sc: case.sc.clone(), fault: None, repeat: 0, reposition: case.reposition, regions: case.regions.clone() });
+            v.push(HostileCase { sc: case.sc.clone(), fault: None, fault_len: 0, repeat: 0, reposition: case.reposition, regions: case.regions.clone() });
+            if case.fault_len > 1 {
+                v.push(HostileCase { fault_len: case.fault_len - 1, ..case.clone() });
+            }
         }
         if case.reposition.is_some() {
-            v.push(HostileCase { sc: case.sc.clone(), fault: case.fault, repeat: 0, reposition: None, regions: case.regions.clone() });
+            v.push(HostileCase { sc: case.sc.clone(), fault: case.fault, fault_len: case.fault_len, repeat: 0, reposition: None, regions: case.regions.clone() });
         }
         if let Some(rp) = &case.regions {
-            v.push(HostileCase { sc: case.sc.clone(), fault: case.fault, repeat: 0, reposition: case.reposition, regions: None });
+            v.push(HostileCase { sc: case.sc.clone(), fault: case.fault, fault_len: case.fault_len, repeat: 0, reposition: case.reposition, regions: None });
             for i in 0..rp.toggles.len() {
                 let mut t = rp.clone();
                 t.toggles.remove(i);
-                v.push(HostileCase { sc: case.sc.clone(), fault: case.fault, repeat: 0, reposition: case.reposition, regions: Some(t) });
+                v.push(HostileCase { sc: case.sc.clone(), fault: case.fault, fault_len: case.fault_len, repeat: 0, reposition: case.reposition, regions: Some(t) });
             }
         }
         for sc in modea::shrink_mux(&case.sc) {
@@ -441,12 +460,12 @@ impl Prop for C17 {
                 toggles.dedup();
                 crate::simdisk::RegionPlan { toggles, gap: rp.gap, final_api: sc.ops.iter().position(|o| matches!(o, Op::End)).map(|i| i as u32 + 1).unwrap_or(0) }
             });
-            v.push(HostileCase { sc, fault: case.fault, repeat: 0, reposition, regions });
+            v.push(HostileCase { sc, fault: case.fault, fault_len: case.fault_len, repeat: 0, reposition, regions });
         }
         v
     }
     fn rule() -> String {
-        "seeded hostile muxing histories: the full value range of every public field (timescales incl. 0, empty/long/non-ASCII languages, SPS/PPS of 0..8 and >64 KiB bytes, mismatched track_type/media_conf, 0 or 300 brands, durations 0/u32::MAX, offsets i32::MIN/MAX, samples of 2^24-1/2^24/2^24+1 bytes, track ids 0/n+1/u32::MAX, no tracks), any call order up to write_end, a hard stream fault at a random call in 20% of the cases (in half of them the caller reacts to a failed write_end with further samples and a second write_end), the sink's position moved by somebody else between two calls in 6% (only the absence of panics is judged after either), the shared offset alternating between a low and a high region of one big file (gap 4 KiB..8 GiB, nothing overwritten: full read-back oracle) in 6%, in the thorough tier one history of 2^32 + 70 000 write_sample calls on one track (every call Ok or Err, and the finished file describes exactly the accepted samples), each call under catch_unwind in the overflow-checked and in the wrapping build; when every call succeeded inside the documented domain the C01 read-back, C02 relations and C14 comparisons are applied; distinct_nontrivial = distinct (API call, error message) pairs plus distinct outcome sequences of the first 24 calls".into()
+        "seeded hostile muxing histories: the full value range of every public field (timescales incl. 0, empty/long/non-ASCII languages, SPS/PPS of 0..8 and >64 KiB bytes, mismatched track_type/media_conf, 0 or 300 brands, durations 0/u32::MAX, offsets i32::MIN/MAX, samples of 2^24-1/2^24/2^24+1 bytes, track ids 0/n+1/u32::MAX, no tracks), any call order up to write_end, a hard stream fault - one call, or an outage of two or three consecutive calls - at a random call in 20% of the cases (in half of them the caller reacts to a failed write_end with further samples and a second write_end), the sink's position moved by somebody else between two calls in 6% (only the absence of panics is judged after either), the shared offset alternating between a low and a high region of one big file (gap 4 KiB..8 GiB, nothing overwritten: full read-back oracle) in 6%, in the thorough tier one history of 2^32 + 70 000 write_sample calls on one track (every call Ok or Err, and the finished file describes exactly the accepted samples), each call under catch_unwind in the overflow-checked and in the wrapping build; when every call succeeded inside the documented domain the C01 read-back, C02 relations and C14 comparisons are applied; distinct_nontrivial = distinct (API call, error message) pairs plus distinct outcome sequences of the first 24 calls".into()
     }
     fn assumptions() -> Vec<String> {
         vec![
